@@ -43,7 +43,9 @@ def gen_cases(tier, seed):
                           "shard": sh, "shards": shards})
     for k in range(2 if tier == "quick" else 8):
         cases.append({"id": "rotation-%d" % k, "sig": ["rotation", k], "kind": "rotation", "k": k})
-    for kind in ("foreign-cert", "garbled-cipher", "garbled-key", "empty-cipher", "truncated-encrypted-data"):
+    for kind in ("foreign-cert", "garbled-cipher", "garbled-key", "empty-cipher", "truncated-encrypted-data",
+                 # the subject identifier alone is encrypted (saml:EncryptedID)
+                 "encrypted-id-foreign-cert", "encrypted-id-garbled-cipher", "encrypted-id-own-cert"):
         for sr in (0, 1):
             cases.append({"id": "undecryptable-%s-r%d" % (kind, sr), "sig": ["undecryptable", kind, sr], "kind": "undec", "how": kind, "sr": sr})
     return cases
@@ -267,7 +269,18 @@ def run_undec(case, ctx, viol, counters):
     sp, idp = _pair(ctx, case["sr"], 0, "one-key")
     ident = {"givenName": ["%s-gn" % MARK], "mail": ["%s@example.org" % MARK]}
     how = case["how"]
-    if how == "foreign-cert":
+    if how.startswith("encrypted-id"):
+        d = xk.Doc(fed.issue(idp, ident, sign_response=False))
+        nid = d.find(xk.SAML, "NameID")[0]
+        p = d.prefix(nid)
+        ed = xk.encrypt_fragment(d.standalone(nid), fed.key(9 if how.endswith("foreign-cert") else 2)[1])
+        xml = d.replace(nid, "<%s:EncryptedID>%s</%s:EncryptedID>" % (p, ed.decode("utf-8") if isinstance(ed, bytes) else ed, p)).text()
+        if how.endswith("garbled-cipher"):
+            d = xk.Doc(xml)
+            n = d.find(xk.XENC, "CipherValue")[-1]
+            v = d.inner(n).decode()
+            xml = d._splice(n.stag_end, n.etag_start, v[:8] + "AAAABBBBCCCC" + v[20:]).text()
+    elif how == "foreign-cert":
         plain = fed.issue(idp, ident, sign_response=False)
         xml = xk.encrypt_assertions(plain, fed.key(9)[1])
     else:
@@ -295,6 +308,10 @@ def run_undec(case, ctx, viol, counters):
         xml = xk.sign_element(xml, xk.SAMLP, "Response", rid, fed.key(0)[0], "rsa-sha256", fed.cert_body(0))
     resp, exc = fed.deliver(sp, xml, dict(OUT))
     counters["undecryptable_deliveries"] = counters.get("undecryptable_deliveries", 0) + 1
+    if how == "encrypted-id-own-cert":
+        # control: this one the SP can open
+        counters["encrypted_id_opened"] = counters.get("encrypted_id_opened", 0) + int(resp is not None and resp.name_id is not None)
+        return "control-accepted" if resp is not None else "control-rejected:" + type(exc).__name__
     if resp is not None:
         i = fed.identity_of(resp)
         has = bool(i.get("ava")) or i.get("name_id") is not None or getattr(resp, "assertion", None) is not None
